@@ -59,7 +59,8 @@ DataPacketBytes(slices) ==
 \* index packet with n 16-byte entries (content irrelevant for readers that do not use the index)
 IndexPacketBytes(n) ==
     LET len == 16 + 16 * n
-    IN <<0, 0>> \o U16Bytes(len - 1) \o U16Bytes(n) \o <<0, 0>> \o ZerosN(8) \o [i \in 1..(16 * n) |-> (i * 7) % 256]
+    \* (byte 6 is the index level 0..5 -- inner index packets have a level above 0 --, the nine bytes behind it are reserved)
+    IN <<0, 0>> \o U16Bytes(len - 1) \o U16Bytes(n) \o <<n % 6, 0>> \o ZerosN(8) \o [i \in 1..(16 * n) |-> (i * 7) % 256]
 \* ignored packet of total length len (multiple of 4, >= 4), non-zero filler
 IgnoredPacketBytes(len) == <<2, 0>> \o U16Bytes(len - 1) \o [i \in 1..(len - 4) |-> 255 - (i % 200)]
 
